@@ -448,6 +448,7 @@ func (cc *connectStreamingClientConn) Receive(msg any) error {
 	if err == nil {
 		return nil
 	}
+	verifYield(cc.duplexCall.ctx, "receive.failed")
 	// See if the server sent an explicit error in the end-of-stream message.
 	mergeHeaders(cc.responseTrailer, cc.unmarshaler.Trailer())
 	if serverErr := cc.unmarshaler.EndStreamError(); serverErr != nil {
